@@ -96,7 +96,7 @@ fn publish_body_len(v5: bool, amode: u8, pm: u8, with_payload: bool, cap: usize,
 
 // @gv props=C02,C17 tier=quick required=yes fns=write_publish_encoding_steps5,compute_publish_packet_length_properties5,compute_publish_fixed_header_first_byte
 // @gv bounds="PUBLISH/MQTT5 without alias and without optional properties, 3-byte payload; QoS concrete per shape (0/1/2 spread over the shapes), symbolic packet id, DUP, retain, alias value, expiry; field lengths concrete (1..5 bytes)"
-// @gv timeout=1200 mem=12
+// @gv timeout=1200 mem=5
 #[kani::proof]
 #[kani::unwind(10)]
 #[kani::stub(std::fmt::format, stub_format)]
@@ -104,7 +104,7 @@ fn c02_publish5_plain() { publish_body(true, 0, 0, true, 8, 1) }
 
 // @gv props=C02,C17 tier=quick required=yes fns=write_publish_encoding_steps5,compute_publish_packet_length_properties5,compute_publish_fixed_header_first_byte
 // @gv bounds="PUBLISH/MQTT5, alias resolved and topic SKIPPED (empty topic + alias property), 3-byte payload; QoS concrete per shape (0/1/2 spread over the shapes), symbolic packet id, DUP, retain, alias value, expiry; field lengths concrete (1..5 bytes)"
-// @gv timeout=1200 mem=12
+// @gv timeout=1200 mem=5
 #[kani::proof]
 #[kani::unwind(12)]
 #[kani::stub(std::fmt::format, stub_format)]
@@ -112,7 +112,7 @@ fn c02_publish5_alias_skip() { publish_body(true, 2, 0, true, 16, 2) }
 
 // @gv props=C02,C17 tier=quick required=yes fns=write_publish_encoding_steps5,compute_publish_packet_length_properties5,compute_publish_fixed_header_first_byte
 // @gv bounds="PUBLISH/MQTT5, alias announced together with the topic, NO payload (identical to an empty payload on the wire); QoS concrete per shape (0/1/2 spread over the shapes), symbolic packet id, DUP, retain, alias value, expiry; field lengths concrete (1..5 bytes)"
-// @gv timeout=1200 mem=12
+// @gv timeout=1200 mem=5
 #[kani::proof]
 #[kani::unwind(12)]
 #[kani::stub(std::fmt::format, stub_format)]
@@ -120,7 +120,7 @@ fn c02_publish5_alias_bind_nopayload() { publish_body(true, 1, 0, false, 16, 0) 
 
 // @gv props=C02,C17 tier=quick required=yes fns=write_publish_encoding_steps5,compute_publish_packet_length_properties5,compute_publish_fixed_header_first_byte
 // @gv bounds="PUBLISH/MQTT5 with payload-format indicator and message expiry (+ alias property); QoS concrete per shape (0/1/2 spread over the shapes), symbolic packet id, DUP, retain, alias value, expiry; field lengths concrete (1..5 bytes)"
-// @gv timeout=1200 mem=12
+// @gv timeout=1200 mem=5
 #[kani::proof]
 #[kani::unwind(16)]
 #[kani::stub(std::fmt::format, stub_format)]
@@ -128,7 +128,7 @@ fn c02_publish5_props_a() { publish_body(true, 1, 1, true, 16, 1) }
 
 // @gv props=C02,C17 tier=thorough required=no fns=write_publish_encoding_steps5,compute_publish_packet_length_properties5,compute_publish_fixed_header_first_byte
 // @gv bounds="PUBLISH/MQTT5 with response topic and correlation data; QoS concrete per shape (0/1/2 spread over the shapes), symbolic packet id, DUP, retain, alias value, expiry; field lengths concrete (1..5 bytes)"
-// @gv timeout=1200 mem=12
+// @gv timeout=1200 mem=5
 #[kani::proof]
 #[kani::unwind(16)]
 #[kani::stub(std::fmt::format, stub_format)]
@@ -136,7 +136,7 @@ fn c02_publish5_props_b() { publish_body(true, 0, 2, true, 16, 0) }
 
 // @gv props=C02,C17 tier=thorough required=no fns=write_publish_encoding_steps5,compute_publish_packet_length_properties5,compute_publish_fixed_header_first_byte
 // @gv bounds="PUBLISH/MQTT5 with content type and one user property; QoS concrete per shape (0/1/2 spread over the shapes), symbolic packet id, DUP, retain, alias value, expiry; field lengths concrete (1..5 bytes)"
-// @gv timeout=1200 mem=12
+// @gv timeout=1200 mem=5
 #[kani::proof]
 #[kani::unwind(18)]
 #[kani::stub(std::fmt::format, stub_format)]
@@ -144,7 +144,7 @@ fn c02_publish5_props_c() { publish_body(true, 0, 4, true, 16, 2) }
 
 // @gv props=C02,C17 tier=quick required=yes fns=write_publish_encoding_steps311,compute_publish_packet_length_properties311
 // @gv bounds="PUBLISH/MQTT3.1.1 with every MQTT5-only field set and an alias resolution that asks to skip the topic: none of it may reach the wire; 3-byte payload; QoS concrete per shape (0/1/2 spread over the shapes), symbolic packet id, DUP, retain, alias value, expiry; field lengths concrete (1..5 bytes)"
-// @gv timeout=1200 mem=12
+// @gv timeout=1200 mem=5
 #[kani::proof]
 #[kani::unwind(10)]
 #[kani::stub(std::fmt::format, stub_format)]
@@ -152,7 +152,7 @@ fn c02_publish311() { publish_body(false, 2, 7, true, 8, 1) }
 
 // @gv props=C02 tier=thorough required=no fns=write_publish_encoding_steps311,compute_publish_packet_length_properties311
 // @gv bounds="PUBLISH/MQTT3.1.1 QoS0 without payload"
-// @gv timeout=1200 mem=12
+// @gv timeout=1200 mem=5
 #[kani::proof]
 #[kani::unwind(10)]
 #[kani::stub(std::fmt::format, stub_format)]
@@ -160,7 +160,7 @@ fn c02_publish311_q0_nopayload() { publish_body(false, 0, 0, false, 8, 0) }
 
 // @gv props=C02 tier=quick required=yes fns=write_publish_encoding_steps5,compute_publish_packet_length_properties5
 // @gv bounds="PUBLISH/MQTT5 whose property section (content type of 130 bytes + user property) needs a two-byte and whose remaining length (payload of 20000 bytes) needs a three-byte Variable Byte Integer; symbolic id and flags"
-// @gv timeout=1200 mem=12
+// @gv timeout=1200 mem=5
 #[kani::proof]
 #[kani::unwind(18)]
 #[kani::stub(std::fmt::format, stub_format)]
@@ -168,7 +168,7 @@ fn c02_publish5_vbi_boundaries() { publish_body_len(true, 0, 4, true, 16, 1, 200
 
 // @gv props=C02 tier=thorough required=no fns=write_publish_encoding_steps311,compute_publish_packet_length_properties311
 // @gv bounds="PUBLISH/MQTT3.1.1 with a 200-byte payload (two-byte remaining length)"
-// @gv timeout=1200 mem=12
+// @gv timeout=1200 mem=5
 #[kani::proof]
 #[kani::unwind(10)]
 #[kani::stub(std::fmt::format, stub_format)]
